@@ -126,6 +126,9 @@ package state
 //@   ensures result == c.entityType
 
 // ---------------------------------------------------------------- appliers
+// Messages are never modified after they are built or decoded (Apply hands a decoded message to the
+// appliers by pointer; they only read it)
+//@ immutable {C18,C19} ChangeMessage.Type ChangeMessage.Key ChangeMessage.Value ChangeMessage.OldValue ChangeMessage.Headers ControlMessage.Headers
 //@ immutable {C18,C19} typedCollectionApplier.collection TypedCollection.store TypedCollection.entityType Materializer.cfg
 //@ immutable {C18,C19} materializerConfig.onReset materializerConfig.onSnapshot materializerConfig.onError materializerConfig.strictSchema
 //@ initwriter WithOnReset$1 WithOnSnapshot$1 WithOnError$1 WithStrictSchema$1 NewMaterializer NewTypedCollection NewTypedCollectionWithType RegisterCollection
